@@ -141,6 +141,15 @@ func init() {
 		time.Sleep(t.U(1) / 10) // the loss is being noticed right now
 		return true
 	})
+	// a call with a long deadline is unanswered when the connection is lost: the recovery has to wait for the client lock that call
+	// holds, and Close must not queue behind both until the call's deadline
+	closeScenario("c14/after-peer-drop-with-long-call", true, nil, func(t *T, p *Peer, cl closer) bool {
+		t.DoAsync(t.cl, "long", 120, 120)
+		t.Sleep(1)
+		t.DoAsync(t.cl, "drop", 130, 4)
+		t.Sleep(2) // the loss has been noticed; a recovery is pending
+		return true
+	})
 	closeScenario("c14/during-failing-reconnects", true, nil, func(t *T, p *Peer, cl closer) bool {
 		p.Refuse(true)
 		p.DropAll()
